@@ -13,7 +13,9 @@ out = ["# Seeded changes and which quick checks catch them", "",
        "proof obligation or the correspondence broke and the widened search found no input on which the property's own predicate fails "
        "(expected for checks of OTHER properties that share the broken model part).", "",
        "`first evaluation` = what the targeted check said when the change was first evaluated, before any strengthening it prompted "
-       "(recorded for the waves W and X of session 3; `missed` = exit 0).", "",
+       "(recorded from wave W on; `missed` = exit 0).", "",
+       "† = not asked in the last run of that change (the final run of session 4 asked only the TARGETED check of every stored change, and all 20 checks "
+       "for the refactorings); the entry is what that check said in the last run that asked it.", "",
        "| seeded change | breaks | confirmed | first evaluation (targeted check) | caught with failing input | caught, no failing input | silent |", "|---|---|---|---|---|---|---|"]
 for d in rows:
     if d.get("kind") == "harmless-refactoring":
@@ -23,7 +25,8 @@ for d in rows:
     b = sorted(set(d.get("caught_by", [])) - set(a))
     s = sorted(k for k, v in c.items() if not v["violation"])
     target = d["property"]
-    mark = lambda l: ", ".join(f"**{x}**" if x == target else x for x in l) or "–"
+    stale = {k for k, v in c.items() if v.get("from_an_earlier_run")}
+    mark = lambda l: ", ".join((f"**{x}**" if x == target else x) + ("†" if x in stale else "") for x in l) or "–"
     fe = d.get("first_evaluation")
     if not fe:
         first = "(as now)"
